@@ -114,6 +114,7 @@ type FV struct {
 	termNames map[string]string
 	bagSorts  map[string]bool
 	bagUse    int
+	pendingFacts []string // instances recorded by bagstep(), assumed by the enclosing ghost assert / lemma hint
 	inSwap    bool
 	prop      string // property whose contract slice is being verified ("" = all clauses)
 	ghostLoops map[*GhostStmt]map[int]bool
